@@ -303,6 +303,20 @@ class ExprMixin:
         v, _ = st.lookup(e.id)
         if v is not None:
             return [(st, v)]
+        info = st.info()
+        node = getattr(info, 'node', None)
+        if node is not None and not self.spec_mode:
+            loc = getattr(info, '_assigned', None)
+            if loc is None:
+                from .exec_stmt import assigned_names
+                loc = assigned_names(node.body) if hasattr(node, 'body') and isinstance(node.body, list) else set()
+                try:
+                    info._assigned = loc
+                except Exception:
+                    pass
+            if e.id in loc:
+                # a local variable that is not bound on this path
+                return [(self.raise_exc(st, 'builtins:UnboundLocalError'), None)]
         return [(st, self.global_name(st, e.id, e))]
 
     def global_name(self, st, name, node):
@@ -559,6 +573,10 @@ class ExprMixin:
         self.unsupported(node, 'comparison operator')
 
     def contains(self, st, container, item, node):
+        if isinstance(container, VRef) and self.opaque_decl(container) is not None:
+            h = self.reg.externals.get('%s.__contains__' % self.opaque_decl(container).short)
+            if h is not None:
+                return h(self, st, container, item)
         if isinstance(container, VDict):
             has = self.dict_has(st, container, item)
             self.dict_has_fact(st, container, has)
@@ -840,6 +858,8 @@ class ExprMixin:
                         nl = self.new_list(s2, base.e)
                         self.list_store(s2, nl, sq.len, z3.Select(sort_of(sq.ty).accessor(0, 1)(sq.t), 0) if False else self._seq_arr(sq))
                         out.append((s2, nl))
+                    elif isinstance(base, VStr):
+                        out.append((s2, VStr(fresh(STR, 'substr'))))      # A-STR: substrings are opaque
                     elif isinstance(base, VTuple):
                         if (lo is None or is_const_int(lo)) and (hi is None or is_const_int(hi)):
                             a = None if lo is None else lo.as_long()
@@ -884,6 +904,8 @@ class ExprMixin:
                     out.append((ex, None))
             elif isinstance(base, VRef) and base.cls is not None and self.find_method(base.cls, '__getitem__') is not None:
                 out.extend(self.call_repo(s, self.find_method(base.cls, '__getitem__'), [base, idx], {}, node))
+            elif isinstance(base, VRef) and self.opaque_decl(base) is not None:
+                out.extend(self.call_external(s, '%s.__getitem__' % self.opaque_decl(base).short, [base, idx], {}, node))
             else:
                 self.unsupported(node, 'subscript of %r' % (base,))
         return out
@@ -936,6 +958,10 @@ class ExprMixin:
             self.heap_set(s, kvk, z3.Store(dv, nd.t, self.dict_vals(s, d)))
             out.append((s, nd))
         return out
+
+    def opaque_decl(self, v):
+        d = (self.reg.classes.get(v.cls) or self.reg.class_by_key.get(v.cls)) if getattr(v, 'cls', None) else None
+        return d if d is not None and d.opaque else None
 
     def _seq_arr(self, sq):
         return sort_of(sq.ty).accessor(0, 1)(sq.t)
